@@ -15,6 +15,8 @@ import (
 )
 
 type Engine struct {
+	privCache  map[*ssa.Function]map[ssa.Value]bool // escape.go
+	escCache   map[*ssa.Function]*escState
 	immGlobals map[*ssa.Global]bool
 	allFuncs   map[*ssa.Function]bool
 	fset               *token.FileSet
@@ -62,7 +64,7 @@ func loadEngine(repo string, pkgPatterns []string, extraContractFiles []string) 
 	prog, spkgs := ssautil.Packages(pkgs, ssa.GlobalDebug)
 	e := &Engine{prog: prog, pkgs: map[string]*ssa.Package{}, tpkgs: map[string]*packages.Package{}, contracts: map[string]*Contract{},
 		contractPkg: map[string]string{}, specFuncs: map[string]*SpecFunc{}, ghosts: map[string]*GhostField{}, heapSorts: map[string]string{},
-		typeIDs: map[string]int{}, inlineOverContract: map[string]bool{}, lines: map[string][]string{}, scan: map[string]int{},
+		typeIDs: map[string]int{}, inlineOverContract: map[string]bool{}, privCache: map[*ssa.Function]map[ssa.Value]bool{}, lines: map[string][]string{}, scan: map[string]int{},
 		noInline: map[string]bool{}, specDeclaring: map[string]bool{}, structDecls: map[string]string{}, constLen: map[string]int64{}}
 	for i, sp := range spkgs {
 		if sp == nil {
@@ -589,19 +591,15 @@ func (f *frame) modelQueries() []modelQuery {
 	return qs
 }
 
-// frameCheck asserts that at a return site everything outside the modifies clause is unchanged
-// for objects that existed at function entry.
-func (f *frame) frameCheck(ct *Contract, r retRec, ord int) {
-	c := f.c
+// frameAllowed evaluates the modifies clause in the entry state: per heap array the objects that may
+// change, the arrays that may change as a whole, and whether everything may (`modifies *`).
+func (f *frame) frameAllowed(ct *Contract) (allowed map[string][]Term, whole map[string]bool, all bool) {
 	env := f.baseEnv(f.entry)
-	allowed := map[string][]Term{}
-	whole := map[string]bool{}
-	if ct.Pure {
-		// nothing allowed
-	}
+	allowed = map[string][]Term{}
+	whole = map[string]bool{}
 	for _, m := range ct.Modifies {
 		if m == "*" {
-			return
+			return nil, nil, true
 		}
 		saved := f.heap
 		f.heap = f.entry.clone()
@@ -613,6 +611,17 @@ func (f *frame) frameCheck(ct *Contract, r retRec, ord int) {
 			}
 		}
 		f.heap = saved
+	}
+	return allowed, whole, false
+}
+
+// frameCheck asserts that at a return site everything outside the modifies clause is unchanged
+// for objects that existed at function entry.
+func (f *frame) frameCheck(ct *Contract, r retRec, ord int) {
+	c := f.c
+	allowed, whole, all := f.frameAllowed(ct)
+	if all {
+		return
 	}
 	var keys []string
 	for k := range c.writes {
